@@ -37,9 +37,9 @@ def plan(tier, seed):
         cfgs.append(dict(sched="RR", table=tab, rate=8, flows=[0, 1], sizes=[1, 2], N=n + 1, gaps="G5", order=0))
     cfgs.append(dict(sched="RR", table=[[0, 1], [1, 1], [2, 1]], rate=8, flows=[0, 1, 2], sizes=[1], N=n + 1, gaps="G3", order=1))
     cfgs.append(dict(sched="RR", table=[[0, 1], [1, 1], [2, 1]], rate=8, flows=[0, 1, 2], sizes=[1], N=6 if quick else 7, gaps=["S"], order=0))
-    cfgs.append(dict(sched="RR", table=[[2, 1], [0, 1], [1, 1]], rate=8, flows=[0, 1, 2], sizes=[1], N=n + 2, gaps=["S", 1], order=0))
-    cfgs.append(dict(sched="WRR", table=[[2, 1], [0, 2], [1, 1]], rate=8, flows=[0, 1, 2], sizes=[1], N=n + 2, gaps=["S", 1], order=0))
-    cfgs.append(dict(sched="DRR", table=[[2, 1], [0, 2], [1, 1]], rate=8000, flows=[0, 1, 2], sizes=[1000, 2000], N=n + 1, gaps=["S", 1], order=0))
+    cfgs.append(dict(sched="RR", table=[[1, 1], [0, 1], [2, 1]], rate=8, flows=[0, 1, 2], sizes=[1], N=n + 2, gaps=["S", 1], order=0))
+    cfgs.append(dict(sched="WRR", table=[[1, 1], [0, 2], [2, 1]], rate=8, flows=[0, 1, 2], sizes=[1], N=n + 2, gaps=["S", 1], order=0))
+    cfgs.append(dict(sched="DRR", table=[[1, 1], [0, 2], [2, 1]], rate=8000, flows=[0, 1, 2], sizes=[1000, 2000], N=n + 1, gaps=["S", 1], order=0))
     for tab in ([[0, 1], [1, 1]], [[0, 2], [1, 1]], [[0, 1], [1, 3]], [[1, 2], [0, 1]]):
         cfgs.append(dict(sched="WRR", table=tab, rate=8, flows=[0, 1], sizes=[1, 2], N=n + 1, gaps="G5", order=0))
         cfgs.append(dict(sched="WRR", table=tab, rate=8, flows=[0, 1], sizes=[1], N=7 if quick else 9, gaps=["S", 1], order=1))
